@@ -25,20 +25,28 @@ def run_one(pid: str, tier: str, seed: int) -> int:
         print(f"ANALYSIS-ERROR property={pid} check module failed to load: {type(e).__name__}: {e}")
         write_error_evidence(pid, tier, seed, f"check module failed to load: {e}", t0)
         return 2
+    chk = None
     try:
         chk = Check(pid, tier, seed)
         mod.run(chk)
         return chk.finish()
     except AnalysisError as e:
-        print(f"ANALYSIS-ERROR property={pid} {e}")
-        write_error_evidence(pid, tier, seed, str(e), t0)
-        return 2
+        msg = str(e)
     except Exception as e:  # a traceback must never look like a violation
-        tb = traceback.format_exc()
-        print(f"ANALYSIS-ERROR property={pid} internal error: {type(e).__name__}: {e}")
-        sys.stderr.write(tb)
-        write_error_evidence(pid, tier, seed, f"internal error {type(e).__name__}: {e}", t0)
-        return 2
+        sys.stderr.write(traceback.format_exc())
+        msg = f"internal error: {type(e).__name__}: {e}"
+    # the analysis stopped half-way.  Violations it had already established (each carries its own witness) are still
+    # reported - exit 1 takes precedence - and the interruption is an ANALYSIS-ERROR line next to them; with nothing
+    # established the run is simply broken (exit 2).
+    if chk is not None and any(o.status == "fail" for o in chk.obls):
+        try:
+            chk.aborted = msg
+            return chk.finish()
+        except Exception:  # noqa: BLE001
+            sys.stderr.write(traceback.format_exc())
+    print(f"ANALYSIS-ERROR property={pid} {msg}")
+    write_error_evidence(pid, tier, seed, msg, t0)
+    return 2
 
 
 def main(argv) -> int:
